@@ -174,7 +174,8 @@ def run_evaluate(ctx: Ctx) -> None:
                              "evaluate(original, 2 s)[j] on the shared domain), masks [1/8, 3/4, 1/8] / [1/2, 1/2] at even / odd positions, per dims subset")
     # 1-D, 2-D, 3-D evaluation against the reference
     cases = [((6,), (2,), (0,)), ((6,), (3,), (1,)), ((5,), (1,), (2,)), ((7,), (2,), (3,)), ((5, 6), (2, 3), (0, 0)), ((5, 5), (2, 1), (1, 0)),
-             ((5, 5), (1, 2), (0, 2)), ((5, 4, 5), (1, 2, 1), (0, 0, 0)), ((4, 5, 4), (2, 1, 1), (0, 1, 0))]
+             ((5, 5), (1, 2), (0, 2)), ((5, 4, 5), (1, 2, 1), (0, 0, 0)), ((4, 5, 4), (2, 1, 1), (0, 1, 0)),
+             ((5, 4), (2, 2), (0, 0)), ((4, 5), (1, 1), (1, 1)), ((4, 4, 4), (2, 2, 2), (0, 0, 0))]  # equal strides: the single-table form of `kernel`
     for cshape, stride, deriv in cases:
         D = len(cshape)
         def th(cshape=cshape, stride=stride, deriv=deriv, D=D):
@@ -215,6 +216,15 @@ def run_evaluate(ctx: Ctx) -> None:
                     if tuple(trd.shape) != tuple(want.shape) or not teq(trd, want):
                         return False, (f"transpose=True with derivative={dform} and the default kernels is accepted and returns something else than "
                                        f"that derivative (documented: not implemented, must be refused)")
+            # the default algorithm with precomputed weight tables (documented forms of `kernel`): one table per axis in (kx, ...) order,
+            # and a single table that stands for every axis (stride and derivative are then ignored)
+            fWt = prog.func("deepali.core.bspline", "cubic_bspline_interpolation_weights")
+            tabs = [it.call(fWt, stride=s_, derivative=d_) for s_, d_ in zip(st_x, dv_x)]
+            for form, kern_arg in (("sequence", list(tabs)), ("tuple", tuple(tabs))) + ((("single tensor", tabs[0]),) if len(set(stride)) == 1 and len(set(deriv)) == 1 else ()):
+                fk = it.call(fE, c, kernel=kern_arg)
+                if tuple(fk.shape) != tuple(want.shape) or not teq(fk, want):
+                    return False, (f"evaluation with precomputed weight tables given as {form} (kernel=...) disagrees with the analytic evaluation: shape "
+                                   f"{tuple(fk.shape)} vs {tuple(want.shape)}")
             # the transposed algorithm with explicitly supplied 1-D kernels (documented form) for every derivative order
             if all(v <= 2 for v in deriv):  # (cubic_bspline1d tabulates the basis and its first two derivatives)
                 fK = prog.func("deepali.core.kernels", "cubic_bspline1d")
